@@ -36,7 +36,7 @@ def finish(pid, tier, seed, results, reg, assumed, wall, known, match_known):
         if r.get('timeout'):
             timeouts.append((kind, name))
             continue
-        {'unit': units, 'lemma': lemmas, 'lean': lemmas, 'canary': canaries, 'bounded': boundeds}[kind].append((name, r))
+        {'unit': units, 'lemma': lemmas, 'lean': lemmas, 'leangen': lemmas, 'canary': canaries, 'bounded': boundeds}[kind].append((name, r))
     obligations = discharged = 0
     by_backend = {}
     solver_secs = 0.0
